@@ -364,7 +364,7 @@ def work(states, extra):
             r, l = req[c], lval[c]
             off = set(tlaset(r['off']))
             undisp = bool(r['mustErr'] and not (off & set(tlaset(r['proper']))))     # the case class of the known finding (Construct.tla: Undispatched)
-            key = (c, bool(r['mustErr']), undisp, o['st'], o['ex'], tuple(o['ty']), tuple(o['eff']))
+            key = (c, bool(r['mustErr']), undisp, o['st'], o['ex'], tuple(o['ty']), tuple(o['eff']), False)
             p = res['pairs'].get(key)
             if p is None:
                 res['pairs'][key] = p = {'count': 0, 'doc': text, 'entry': entry}
@@ -386,6 +386,143 @@ def work(states, extra):
     return res
 
 
+# ---------------------------------------------------------------- customisation histories (spec/ConstructPrelude.tla)
+LOADERS = ['BaseLoader', 'CBaseLoader', 'SafeLoader', 'CSafeLoader', 'FullLoader', 'CFullLoader', 'UnsafeLoader', 'CUnsafeLoader',
+           'Loader', 'CLoader']
+ENTRY_CLASS = {'safe_load': 'SafeLoader', 'safe_load_all': 'SafeLoader', 'full_load': 'FullLoader', 'full_load_all': 'FullLoader'}
+HIST_DOCS = ['%s x', '%s {a: b}', '%s [a]', '[{k: %s {a: b}}, c]']
+PRELUDE_CONFIGS = {
+    'hist2': dict(MaxSteps=2, Ops=['yobj', 'ctor', 'multi', 'modctor', 'modctorx', 'modmulti', 'subctor'],
+                  Singles=['SafeLoader', 'CSafeLoader', 'BaseLoader', 'FullLoader', 'CFullLoader', 'UnsafeLoader'],
+                  Lists='{{"SafeLoader"}, {"SafeLoader", "CSafeLoader"}, {"BaseLoader"}, {"FullLoader", "UnsafeLoader"}}',
+                  SubBases=['SafeLoader', 'BaseLoader', 'FullLoader']),
+    'hist3': dict(MaxSteps=3, Ops=['yobj', 'ctor', 'modctor', 'subctor'],
+                  Singles=['SafeLoader', 'CSafeLoader', 'BaseLoader', 'CFullLoader', 'UnsafeLoader'],
+                  Lists='{{"SafeLoader", "CSafeLoader"}, {"BaseLoader", "CBaseLoader"}, {"FullLoader", "UnsafeLoader"}}',
+                  SubBases=['SafeLoader', 'FullLoader']),
+}
+PRELUDE_TIERS = {'quick': ['hist2'], 'thorough': ['hist2', 'hist3']}
+
+
+def apply_step(yaml, i, s, keep):
+    """perform customisation step number i of a history on the live classes; returns (document tag, table key, kind)"""
+    import verif_canary
+    tag = '!verif_h%d' % i
+    op, form = s['op'], s['form']
+    ls = [getattr(yaml, n) for n in sorted(tlaset(s['on']))]
+
+    def fire(loader, node):
+        return verif_canary.fire()
+
+    def mfire(loader, suffix, node):
+        return verif_canary.fire()
+    if op == 'yobj':
+        def new(cls, *a, **k):
+            verif_canary.LOG.append(('call', 'VerifHObj.__new__'))
+            return object.__new__(cls)
+
+        def setstate(self, state):
+            verif_canary.LOG.append(('call', 'VerifHObj.__setstate__'))
+        ns = {'yaml_tag': tag, '__new__': new, '__setstate__': setstate}
+        if form == 'one':
+            ns['yaml_loader'] = ls[0]
+        elif form == 'list':
+            ns['yaml_loader'] = list(ls)
+        keep.append(type('VerifHObj', (yaml.YAMLObject,), ns))
+        return tag, tag, 'exact'
+    if op == 'ctor':
+        ls[0].add_constructor(tag, fire)
+        return tag, tag, 'exact'
+    if op == 'multi':
+        ls[0].add_multi_constructor(tag + ':', mfire)
+        return tag + ':sfx', tag + ':', 'multi'
+    if op == 'modctor':
+        if form == 'default':
+            yaml.add_constructor(tag, fire)
+        else:
+            yaml.add_constructor(tag, fire, Loader=ls[0])
+        return tag, tag, 'exact'
+    if op == 'modmulti':
+        yaml.add_multi_constructor(tag + ':', mfire)
+        return tag + ':sfx', tag + ':', 'multi'
+    if op == 'subctor':
+        sub = type('VerifSub%d' % i, (ls[0],), {})
+        sub.add_constructor(tag, fire)
+        keep.append(sub)
+        return tag, tag, 'exact'
+    raise SystemExit('machinery failure: unknown customisation step %r' % (s,))
+
+
+def replay_history(yaml, ins, st, entries):
+    """(in a forked child) perform the history, compare the live tables with the model's, load documents that carry each
+    step's tag through every confined entry point"""
+    keep, out = [], {'pairs': [], 'drift': [], 'loads': 0}
+    hist = st['hist']
+    tags = [apply_step(yaml, i + 1, s, keep) for i, s in enumerate(hist)]
+    text = ' ; '.join('%s/%s/%s' % (s['op'], s['form'], ','.join(sorted(tlaset(s['on'])))) for s in hist)
+    for l in LOADERS:
+        L = getattr(yaml, l)
+        live = sorted(i + 1 for i, (_t, key, kind) in enumerate(tags)
+                      if key in (L.yaml_constructors if kind == 'exact' else L.yaml_multi_constructors))
+        model = sorted(tlaset(st['ltab'][l]))
+        if live != model:
+            out['drift'].append('prelude: after [%s] %s sees the registrations of steps %s, ConstructPrelude.tla says %s' % (text, l, live, model))
+    for i, (tag, _key, _kind) in enumerate(tags):
+        for c, entry in entries:
+            r = st['req'][ENTRY_CLASS.get(entry, entry)][i]
+            for d in HIST_DOCS:
+                doc = d % tag + '\n'
+                o = ins.observe(entry, doc)
+                out['loads'] += 1
+                out['pairs'].append([[c, bool(r['mustErr']), False, o['st'], o['ex'], list(o['ty']), list(o['eff']), bool(r['free'])],
+                                     'after [%s]: %s' % (text, doc), entry])
+    return out
+
+
+def hist_work(states, extra):
+    yaml = use_repo()
+    ins = Instruments(yaml)
+    classes = extra['classes']
+    entries = [(c, e) for c, e in ENTRY if c in classes]
+    res = {'n': 0, 'loads': 0, 'pairs': {}, 'drift': {}, 'samples': [], 'optin': 0}
+    for st in states:
+        res['n'] += 1
+        if not st['hist']:
+            continue
+        r, w = os.pipe()
+        pid = os.fork()
+        if pid == 0:                                  # the history mutates class-level state: one child per history
+            code = 1
+            try:
+                os.close(r)
+                with os.fdopen(w, 'w') as f:
+                    json.dump(replay_history(yaml, ins, st, entries), f)
+                code = 0
+            finally:
+                os._exit(code)
+        os.close(w)
+        with os.fdopen(r) as f:
+            data = f.read()
+        _pid, status = os.waitpid(pid, 0)
+        if status != 0 or not data:
+            raise SystemExit('machinery failure: replay of customisation history %r failed in the child' % (st['hist'],))
+        out = json.loads(data)
+        res['loads'] += out['loads']
+        for k, doc, entry in out['pairs']:
+            key = (k[0], k[1], k[2], k[3], k[4], tuple(k[5]), tuple(k[6]), k[7])
+            p = res['pairs'].get(key)
+            if p is None:
+                res['pairs'][key] = p = {'count': 0, 'doc': doc, 'entry': entry}
+            p['count'] += 1
+            res['optin'] += k[7]
+        for d in out['drift']:
+            q = res['drift'].setdefault(d.split(' after [')[0] + ' ' + d.split('] ', 1)[1], {'count': 0, 'doc': d, 'entry': '-'})
+            q['count'] += 1
+        if len(res['samples']) < 1 and len(st['hist']) >= extra['sample_len']:
+            res['samples'].append({'history': out['pairs'][0][1].split(':')[0] if out['pairs'] else '', 'loads': out['loads']})
+    return res
+
+
 # ---------------------------------------------------------------- code -> spec: the repository's data files
 CORE_TEXT = {Y + b for b in CORE12}
 REPO_TEXT = {Y + b for b in REPO3}
@@ -393,46 +530,69 @@ OBJ_PREFIX = tuple(Y + 'python/' + p for p in ('object:', 'object/new:', 'object
 
 
 def corpus_requirements(yaml, text):
-    """mustErr flags of the statements for a real document, from its composed node graphs (tags as the resolver gives
-    them); returns None when the text does not compose"""
+    """mustErr / undisp flags of the statements for a real document, from its composed node graphs (tags as the resolver
+    gives them); returns None when the text does not compose.  child_uses is a transcription of ChildUses of
+    spec/Construct.tla (where a node occurs as a value, where it is syntax of a merge / omap entry / '=' default)."""
     try:
         docs = list(yaml.compose_all(text, Loader=yaml.SafeLoader))
     except Exception:
         return None
-    off = {'Safe': [], 'Full': [], 'Base': []}
-    structural = set()
-    seen = set()
+    S, Q, M = yaml.ScalarNode, yaml.SequenceNode, yaml.MappingNode
+    mapt, pairt = (Y + 'map', Y + 'set', Y + 'python/dict'), (Y + 'omap', Y + 'pairs')
 
-    def walk(n, struct):
-        if id(n) in seen:
-            if not struct:
-                structural.discard(id(n))
-            return
-        seen.add(id(n))
-        if struct:
-            structural.add(id(n))
-        if n.tag not in CORE_TEXT and n.tag not in REPO_TEXT:
-            off['Safe'].append(id(n))
-        if n.tag.startswith(OBJ_PREFIX):
-            off['Full'].append(id(n))
-        if isinstance(n, yaml.SequenceNode):
-            pairs = n.tag in (Y + 'omap', Y + 'pairs')
-            for c in n.value:
-                walk(c, pairs and isinstance(c, yaml.MappingNode))
-        elif isinstance(n, yaml.MappingNode):
-            opaque = n.tag not in (Y + 'map', Y + 'set', Y + 'python/dict') and not n.tag.startswith(Y + 'python/object')
+    def kv(n):
+        return [(x, 'obj') for e in n.value for x in e]
+
+    def child_uses(n, m):
+        if isinstance(n, S):
+            return []
+        if isinstance(n, Q):
+            if m == 'obj' and n.tag in pairt:
+                return [(c, 'pair' if isinstance(c, M) else 'obj') for c in n.value]
+            if m == 'mlist':
+                return [(c, 'msrc' if isinstance(c, M) else 'obj') for c in n.value]
+            return [(c, 'obj') for c in n.value]
+        if m == 'msrc' or (m == 'obj' and n.tag in mapt):
+            out = []
             for k, v in n.value:
-                m = k.tag == Y + 'merge'
-                walk(k, opaque or m)
-                walk(v, opaque or (m and isinstance(v, (yaml.MappingNode, yaml.SequenceNode))))
-                if m and isinstance(v, yaml.SequenceNode):
-                    for c in v.value:
-                        if isinstance(c, yaml.MappingNode):
-                            structural.add(id(c))
-    for d in docs:
-        if d is not None:
-            walk(d, False)
-    return {c: {'mustErr': bool(off[c]), 'undisp': bool(off[c]) and all(i in structural for i in off[c])} for c in off}
+                if k.tag == Y + 'merge':
+                    out.append((v, 'msrc' if isinstance(v, M) else 'mlist' if isinstance(v, Q) else 'obj'))
+                else:
+                    out += [(k, 'obj'), (v, 'obj')]
+            return out
+        if m == 'pair':
+            return kv(n)
+        for k, v in n.value:
+            if k.tag == Y + 'value':
+                return [(v, 'eqv')]
+        return kv(n)
+
+    off = {'Safe': set(), 'Full': set(), 'Base': set()}
+    proper, seen, reach = set(), set(), {}
+    todo = [(d, 'obj') for d in docs if d is not None]
+    while todo:
+        n, m = todo.pop()
+        if (id(n), m) in seen:
+            continue
+        seen.add((id(n), m))
+        if m == 'obj':
+            proper.add(id(n))
+        todo += child_uses(n, m)
+    todo = [d for d in docs if d is not None]
+    while todo:                                     # every node of the document (Reach)
+        n = todo.pop()
+        if id(n) in reach:
+            continue
+        reach[id(n)] = n
+        if n.tag not in CORE_TEXT and n.tag not in REPO_TEXT:
+            off['Safe'].add(id(n))
+        if n.tag.startswith(OBJ_PREFIX):
+            off['Full'].add(id(n))
+        if isinstance(n, Q):
+            todo += n.value
+        elif isinstance(n, M):
+            todo += [x for e in n.value for x in e]
+    return {c: {'mustErr': bool(off[c]), 'undisp': bool(off[c]) and not (off[c] & proper)} for c in off}
 
 
 def corpus_work(args):
@@ -459,7 +619,7 @@ def corpus_work(args):
             else:
                 o = ins.observe_fn(lambda: list(yaml.safe_load_all(text)))
             n += 1
-            key = (c, req[c]['mustErr'], req[c]['undisp'], o['st'], o['ex'], tuple(o['ty']), tuple(o['eff']))
+            key = (c, req[c]['mustErr'], req[c]['undisp'], o['st'], o['ex'], tuple(o['ty']), tuple(o['eff']), False)
             p = pairs.setdefault(key, {'count': 0, 'doc': os.path.basename(f), 'entry': entry, 'config': 'corpus'})
             p['count'] += 1
     return pairs, n
@@ -549,7 +709,7 @@ def run(v, pid, classes, configs, loader_names):
         raise SystemExit('machinery failure: the unsafe loaders showed no effect on any document: instruments are dead')
     # judgement of the distinct (requirement, observation) pairs by TLC
     keys = sorted(pairs, key=repr)
-    recs = [{'c': k[0], 'mustErr': k[1], 'undisp': k[2], 'st': k[3], 'ex': k[4], 'ty': list(k[5]), 'eff': list(k[6])} for k in keys]
+    recs = [{'c': k[0], 'mustErr': k[1], 'undisp': k[2], 'st': k[3], 'ex': k[4], 'ty': list(k[5]), 'eff': list(k[6]), 'free': k[7]} for k in keys]
     verdicts, jstates = trace.judge('Trace_Confine', recs, pid + '_judge')
     for k, (ok, why, _at) in zip(keys, verdicts):
         if ok:
